@@ -1,6 +1,6 @@
 /-
   C05 — candidate clusters group protoclusters by the documented kinds.
-  Property theorems only; helper lemmas in ASV/Proofs/{MergeSets,Candidates,Coverage,Members,SpecBridge,NoDup,Passes,Total,HybridWindow,PermInvariant,RingFacts,RingInterleaved,NoDupRing,RingHybrid,SortModel,SortLinear}.lean.
+  Property theorems only; helper lemmas in ASV/Proofs/{MergeSets,Candidates,Coverage,Members,SpecBridge,NoDup,Passes,Total,HybridWindow,PermInvariant,RingFacts,RingInterleaved,NoDupRing,RingHybrid,SortModel,SortLinear,Definition}.lean.
 
   Model: ASV/Model/Candidates.lean (formation.py after the repairs D16, D19, D501–D507).
   `formation ps wrap` is `create_candidates_from_protoclusters(protoclusters, circular_wrap_point)`;
@@ -8,7 +8,7 @@
   only hypothesis on the input is `ps.Nodup` (no protocluster object supplied twice), and only where
   counting is involved.  Every theorem holds for all inputs, linear and circular, of any size.
 -/
-import ASV.Proofs.SortLinear
+import ASV.Proofs.Definition
 namespace ASV.C05
 open ASV ASV.CC ASV.CC.Spec
 
@@ -150,6 +150,48 @@ theorem no_duplicate_candidates_ring_partial (L : Int) (ps : List Proto) (cs : L
   formation_noDuplicates_ring hn ⟨hL, hv, hhalf⟩ h
 
 /-! ### 5. the kinds: what each pass groups -/
+
+/-- The defining genes are those of the `definition_cdses` property as the classes define it:
+    `mkProto` models `Record.add_protocluster` → `Protocluster.add_cds` (the CDSs within the extent that
+    lie inside the core and carry a CORE gene function of the protocluster's product are stored — for a
+    sideloaded protocluster too) and the property (the stored set for `Protocluster`, **always empty
+    for `SideloadedProtocluster`**).  So a sideloaded protocluster shares a defining gene with nobody,
+    whatever CORE genes its core contains and whatever its product is called … -/
+theorem sideloaded_shares_no_defining_gene (id : Nat) (loc core : Loc) (product : String) (genes : List Gene) (q : Proto) :
+    (mkProto id loc core product true genes).defs = [] ∧
+    shares (mkProto id loc core product true genes) q = false ∧
+    shares q (mkProto id loc core product true genes) = false :=
+  ⟨rfl, shares_nil_left rfl, shares_nil_right rfl⟩
+
+/-- … a rule-detected one has exactly the CORE genes of its own product inside its core and extent … -/
+theorem detected_defining_genes (id : Nat) (loc core : Loc) (product : String) (genes : List Gene) (g : Nat) :
+    g ∈ (mkProto id loc core product false genes).defs ↔
+      ∃ x, x ∈ genes ∧ x.id = g ∧ locationContainsOther loc x.loc = true ∧ locationContainsOther core x.loc = true ∧
+        product ∈ x.coreProducts :=
+  mem_mkProto_defs
+
+/-- … and a protocluster without defining genes (every sideloaded one) is in a chemical hybrid only
+    as a protocluster whose core lies inside the connected core of a gene-sharing class it does not
+    belong to — never through a "shared gene" (any record).  This is what reading the stored set
+    instead of the property falsifies. -/
+theorem protocluster_without_defining_genes_joins_hybrids_only_by_containment (clusters : List Proto)
+    (wrap : Option Int) (hg : List (List Proto)) (un : List Proto) (hn : clusters.Nodup)
+    (h : findHybrids clusters wrap = .ok (hg, un)) (p : Proto) (hp : p.defs = []) :
+    ∀ g, g ∈ hg → p ∈ g → ∃ (m : List Proto) (core : Loc), p ∉ m ∧ 2 ≤ m.length ∧ (∀ x, x ∈ m → x ∈ g) ∧
+      (∀ a b, a ∈ m → b ∈ m → Linked (shareGroups clusters) a b) ∧
+      connect (m.map (·.core)) wrap = .ok core ∧ locationContainsOther core p.core = true :=
+  no_defs_only_contained h hn hp
+
+/-- the layout of the seeded change: a rule-detected `NRPS` protocluster with two CORE genes and a
+    sideloaded annotation called `NRPS` whose core contains the first of them: the sideloaded one has no
+    defining genes, the two form one INTERLEAVED candidate (their cores overlap), no chemical hybrid -/
+example :
+    let genes : List Gene := [⟨0, .simple ⟨1000, 1600, .fwd⟩, ["NRPS"]⟩, ⟨1, .simple ⟨2000, 2600, .fwd⟩, ["NRPS"]⟩]
+    let detected := mkProto 0 (.simple ⟨0, 3600, .fwd⟩) (.simple ⟨1000, 2600, .fwd⟩) "NRPS" false genes
+    let sideloaded := mkProto 1 (.simple ⟨400, 2200, .fwd⟩) (.simple ⟨900, 1700, .fwd⟩) "NRPS" true genes
+    detected.defs = [0, 1] ∧ sideloaded.defs = [] ∧
+    storedDefs (.simple ⟨400, 2200, .fwd⟩) (.simple ⟨900, 1700, .fwd⟩) "NRPS" genes = [0] ∧
+    summary (formation [detected, sideloaded] none) = some [(.interleaved, [0, 1])] := by decide +kernel
 
 /-- Chemical hybrids (any record).  (1) protoclusters linked by a chain of shared defining genes end up
     in one hybrid group; (2) every hybrid group is one such chain class `m` (≥ 2 protoclusters) plus
